@@ -10,8 +10,11 @@ Tie
   R (relational, property level, never consulting the Lean model): for every (template, molecule, match) the real product
      is checked against the declarative clauses (`clauses`): deleted set = spec, frame of unnamed atoms, named atoms/bonds
      as requested, fresh unique numbers, one product per match, identity templates, valence validity for the built-in
-     collections, independence of reactant numbering / insertion order / reactant order (canonical strings).
-Stereo translation is outside the Lean model; stereo fields are not compared in K.
+     collections, independence of reactant numbering / insertion order / reactant order (canonical strings), kept and
+     overridden stereo configurations (tetrahedral / allene / cis-trans, compared centre by centre through C12's sign translation
+     for a fixed neighbour order), exhaustive mode = closure of single-match edits (one-pattern templates) and superset of the
+     one-shot mode, hydrogens of atoms away from the edit under the default aromaticity repair.
+Stereo translation is outside the Lean model; stereo fields are not compared in K (they are validated by `stereo_clauses`).
 """
 import itertools
 import json
@@ -23,7 +26,7 @@ LEVEL_TEXT = ('The deleted-atom closure (`_get_deleted`) is proved exact against
               'every match and every set-iteration order, and the frame / named-atom / fresh-number clauses are proved for the '
               'executable model of `_patcher`; the model is a hand transcription tied to the code by differential testing on '
               'corpus x built-in and synthetic templates, and the remaining clauses (valence validity, one product per match, '
-              'numbering / order independence, aromaticity repair) are validated on the real outputs by a property-level oracle. '
+              'numbering / order independence, kept / overridden stereo, exhaustive mode, aromaticity repair) are validated on the real outputs by a property-level oracle. '
               'Translation validation is the honest level: the matcher, kekule/thiele and the stereo translation are not in the model.')
 LEVEL_NOTE = ('Lean kernel; hand-written model Model/C16Patcher.lean validated by correspondence, not derived from the Python text; '
               'Spec/C16Deleted.lean written from the property statement; matcher output (mappings) is taken from the real code; '
@@ -1238,7 +1241,7 @@ def correspond(ctx):
             add_transformer_cases(cases, 'rejected.' + name, q, r, m, str(m), kw)
 
     # synthetic templates x handmade + corpus sample (+ renumbered variants)
-    mols = molecules_for(ctx, 60 if ctx.quick else 600)
+    mols = molecules_for(ctx, 60 if ctx.quick else 480)
     synth = []
     for name, qs, rs, kw in SYNTHETIC:
         try:
